@@ -253,13 +253,13 @@ Definition ctl_ops {T : Type} {NT : Num T} {ND : NumDur T} (powf : T -> T -> T)
     queued for it (not yet picked up), which are in its arena. *)
 Section Keep.
   Inductive ktree :=
-  | KT (marked persist : bool) (nsounds qsounds : nat) (qsubs subs : list ktree).
+  | KT (id : nat) (marked persist : bool) (nsounds qsounds : nat) (qsubs subs : list ktree).
 
   Definition is_nilb {X : Type} (l : list X) : bool := match l with [] => true | _ => false end.
   (** [Track::should_be_removed] *)
   Fixpoint removable (t : ktree) : bool :=
     match t with
-    | KT marked persist nsounds qsounds qsubs subs =>
+    | KT id marked persist nsounds qsounds qsubs subs =>
         if negb (is_nilb qsubs) || existsb (fun c => negb (removable c)) subs then false
         else if persist then marked && (Nat.eqb nsounds 0) && (Nat.eqb qsounds 0)
              else marked
@@ -267,9 +267,9 @@ Section Keep.
   (** the seeded reading: a sub-track keeps its parent only while its own handle exists *)
   Definition removable_shallow (t : ktree) : bool :=
     match t with
-    | KT marked persist nsounds qsounds qsubs subs =>
+    | KT id marked persist nsounds qsounds qsubs subs =>
         if negb (is_nilb qsubs)
-           || existsb (fun c => match c with KT m _ _ _ _ _ => negb m end) subs then false
+           || existsb (fun c => match c with KT _ m _ _ _ _ _ => negb m end) subs then false
         else if persist then marked && (Nat.eqb nsounds 0) && (Nat.eqb qsounds 0)
              else marked
     end.
@@ -277,12 +277,12 @@ Section Keep.
       get) a sound, or a sub-track is waiting to be picked up by it *)
   Definition anchored_here (t : ktree) : bool :=
     match t with
-    | KT marked persist nsounds qsounds qsubs _ =>
+    | KT _ marked persist nsounds qsounds qsubs _ =>
         negb marked || (persist && negb ((Nat.eqb nsounds 0) && (Nat.eqb qsounds 0))) || negb (is_nilb qsubs)
     end.
   Fixpoint anchored (t : ktree) : bool :=
     match t with
-    | KT _ _ _ _ _ subs => anchored_here t || existsb anchored subs
+    | KT _ _ _ _ _ _ subs => anchored_here t || existsb anchored subs
     end.
   (** `sub_tracks.remove_and_add(|t| t.should_be_removed())` then every survivor's own on_start_processing
       (queued sub-tracks are inserted at the head, most recent first, and started too) *)
@@ -294,8 +294,8 @@ Section Keep.
       end.
   Fixpoint k_on_start (test : ktree -> bool) (t : ktree) : ktree :=
     match t with
-    | KT marked persist nsounds qsounds qsubs subs =>
-        KT marked persist (nsounds + qsounds) 0 []
+    | KT id marked persist nsounds qsounds qsubs subs =>
+        KT id marked persist (nsounds + qsounds) 0 []
            (rev (map (k_on_start test) qsubs) ++ drain_then test (k_on_start test) subs)
     end.
   Definition k_mixer_on_start (test : ktree -> bool) (tops : list ktree) : list ktree :=
@@ -303,6 +303,26 @@ Section Keep.
   (** number of sounds that will be processed (arena sounds of every track still in the tree) *)
   Fixpoint k_sounds (t : ktree) : nat :=
     match t with
-    | KT _ _ nsounds _ _ subs => nsounds + list_sum (map k_sounds subs)
+    | KT _ _ _ nsounds _ _ subs => nsounds + list_sum (map k_sounds subs)
     end.
+
+  (** the handle's side, by track identity; the mixer is a root that is never removed (identity 0) *)
+  Fixpoint k_upd (i : nat) (f : ktree -> ktree) (t : ktree) : ktree :=
+    match t with
+    | KT id marked persist nsounds qsounds qsubs subs =>
+        let t' := KT id marked persist nsounds qsounds (map (k_upd i f) qsubs) (map (k_upd i f) subs) in
+        if Nat.eqb id i then f t' else t'
+    end.
+  Inductive kop :=
+  | KAdd (parent id : nat) (persist : bool)      (* add_sub_track on the manager (parent 0) or on a track handle *)
+  | KPlay (tr : nat)                             (* play a sound on the track *)
+  | KDrop (tr : nat).                            (* drop the track's handle *)
+  Definition k_do (root : ktree) (o : kop) : ktree :=
+    match o with
+    | KAdd parent id persist =>
+        k_upd parent (fun t => match t with KT i m p ns qs qsubs subs => KT i m p ns qs (qsubs ++ [KT id false persist 0 0 [] []]) subs end) root
+    | KPlay tr => k_upd tr (fun t => match t with KT i m p ns qs qsubs subs => KT i m p ns (S qs) qsubs subs end) root
+    | KDrop tr => k_upd tr (fun t => match t with KT i m p ns qs qsubs subs => KT i true p ns qs qsubs subs end) root
+    end.
+  Definition k_root : ktree := KT 0 false false 0 0 [] [].
 End Keep.
